@@ -1,5 +1,155 @@
-(* C04 — placeholder until the graph layer (Graph.v) lands. *)
-From DA Require Import PyBase.
-Open Scope Z_scope.
-Example C04_placeholder : zsum [1;2;3] = 6. Proof. reflexivity. Qed.
-Print Assumptions C04_placeholder.
+(* C04 — "For every array, `__dask_keys__()` is the grid of `(name, *block_index)` keys over the
+   advertised block structure with `name` equal to the collection's name, and the graph from
+   `__dask_graph__()` defines every one of those keys.  The graph defines every key any task
+   depends on and contains no dependency cycle.  The collection's name never changes because
+   of optimization."
+
+   Statements only; proofs in theories/GraphFacts.v.  The harness (harness/graphs.py) numbers
+   the real keys, computes a topological order with Kahn's algorithm in Python and hands the
+   order to Coq as an UNTRUSTED certificate: `graph_check_b g order outs && keys_okN_b nb idx`
+   is evaluated inside Coq on every generated graph.  The theorems below say what an accepted
+   case is guaranteed to satisfy, for graphs of any size.  (The name clauses compare Python
+   strings and are checked by the harness only.) *)
+From Coq Require Import List Bool Arith PArith NArith Relations.
+From DA Require Import Graph GraphFacts.
+Import ListNotations.
+
+(* the certificate checker is sound: an accepted graph is closed (defines every key any task
+   depends on), has no duplicate keys and no dependency cycle *)
+Theorem C04_checker_sound :
+  forall g order, topo_check_b g order = true ->
+  closed g /\ NoDup (keys g) /\ acyclic g.
+Proof. exact topo_check_sound. Qed.
+
+(* the full check used by the harness additionally guarantees that the certificate is a
+   topological order and that every requested output key is defined by the graph *)
+Theorem C04_graph_check_sound :
+  forall g order outs, graph_check_b g order outs = true ->
+  NoDup (keys g) /\ topological g order /\ (forall k, In k outs -> defined g k).
+Proof. exact graph_check_sound. Qed.
+
+(* a topological order is a witness of closedness and acyclicity ... *)
+Theorem C04_topological_closed_acyclic :
+  forall g o, topological g o -> closed g /\ acyclic g.
+Proof. exact topological_closed_acyclic. Qed.
+
+(* ... equivalently there is a rank that strictly decreases along every dependency edge *)
+Theorem C04_checker_ranked :
+  forall g order, topo_check_b g order = true ->
+  exists rank : key -> nat, forall k d, edge g k d -> rank d < rank k.
+Proof. exact topo_check_ranked. Qed.
+
+Theorem C04_ranked_acyclic : forall g, ranked g -> acyclic g.
+Proof. exact ranked_acyclic. Qed.
+
+(* the checker is complete: it rejects no genuine certificate (so a rejection by the harness
+   means the Python-side order is not topological, or the graph is not well formed) *)
+Theorem C04_checker_complete :
+  forall g order, NoDup (keys g) -> topological g order -> topo_check_b g order = true.
+Proof. exact topo_check_complete. Qed.
+
+(* self-contained variant (Kahn inside Coq, validated by the same checker) *)
+Theorem C04_acyclic_b_sound :
+  forall g, acyclic_b g = true -> closed g /\ NoDup (keys g) /\ acyclic g.
+Proof. exact acyclic_b_sound. Qed.
+
+(* the simple quadratic checkers decide exactly the two structural predicates *)
+Theorem C04_closed_b_spec : forall g, closed_b g = true <-> closed g.
+Proof. exact closed_b_spec. Qed.
+Theorem C04_no_dup_keys_b_spec : forall g, no_dup_keys_b g = true <-> NoDup (keys g).
+Proof. exact no_dup_keys_b_spec. Qed.
+
+(* the advertised key grid: product-many block indices, each in bounds, none repeated *)
+Theorem C04_grid_length : forall nb, length (grid nb) = fold_right Nat.mul 1 nb.
+Proof. exact grid_length. Qed.
+Theorem C04_grid_in_bounds : forall nb idx, In idx (grid nb) <-> Forall2 lt idx nb.
+Proof. exact grid_in_bounds. Qed.
+Theorem C04_grid_NoDup : forall nb, NoDup (grid nb).
+Proof. exact grid_NoDup. Qed.
+
+(* what the harness-side comparison of `__dask_keys__()` with the grid establishes *)
+Theorem C04_keys_ok_spec : forall nb out, keys_ok_b nb out = true <-> out = grid nb.
+Proof. exact keys_ok_b_spec. Qed.
+Theorem C04_keys_ok_exactly_once :
+  forall nb out, keys_ok_b nb out = true ->
+  NoDup out /\ length out = fold_right Nat.mul 1 nb /\ forall idx, In idx out <-> Forall2 lt idx nb.
+Proof. exact keys_ok_exactly_once. Qed.
+Theorem C04_keys_okN_spec :
+  forall nb out, keys_okN_b nb out = true <-> out = map (map N.of_nat) (grid (map N.to_nat nb)).
+Proof. exact keys_okN_b_spec. Qed.
+
+(* ---- Examples ---- *)
+Open Scope positive_scope.
+
+(* a 5-task diamond: 1 <- {2,3} <- 4 <- 5 *)
+Definition C04_diamond : graph := [(1, []); (2, [1]); (3, [1]); (4, [2; 3]); (5, [4])].
+
+Example C04_ex_diamond_order1 : graph_check_b C04_diamond [1; 2; 3; 4; 5] [5] = true.
+Proof. vm_compute. reflexivity. Qed.
+Example C04_ex_diamond_order2 : graph_check_b C04_diamond [1; 3; 2; 4; 5] [5] = true.
+Proof. vm_compute. reflexivity. Qed.
+Example C04_ex_diamond_self_contained : acyclic_b C04_diamond = true.
+Proof. vm_compute. reflexivity. Qed.
+(* not a topological order / an output key that is not in the graph *)
+Example C04_ex_diamond_bad_order : topo_check_b C04_diamond [1; 2; 4; 3; 5] = false.
+Proof. vm_compute. reflexivity. Qed.
+Example C04_ex_diamond_missing_out : graph_check_b C04_diamond [1; 2; 3; 4; 5] [6] = false.
+Proof. vm_compute. reflexivity. Qed.
+
+(* a cyclic graph is rejected WHATEVER certificate is offered *)
+Definition C04_cyclic : graph := [(1, []); (2, [1; 3]); (3, [2])].
+Example C04_ex_cyclic_rejected : forall order, topo_check_b C04_cyclic order = false.
+Proof.
+  intro order. destruct (topo_check_b C04_cyclic order) eqn:E; [|reflexivity].
+  apply topo_check_sound in E. destruct E as (_ & _ & Hac). exfalso. apply (Hac 2).
+  apply t_trans with 3; apply t_step.
+  - exists [1; 3]. split; [right; left; reflexivity | right; left; reflexivity].
+  - exists [2]. split; [right; right; left; reflexivity | left; reflexivity].
+Qed.
+Example C04_ex_cyclic_kahn : acyclic_b C04_cyclic = false.
+Proof. vm_compute. reflexivity. Qed.
+
+(* a dangling dependency (key 7 is not defined) is rejected whatever certificate is offered *)
+Definition C04_dangling : graph := [(1, []); (2, [1; 7])].
+Example C04_ex_dangling_rejected : forall order, topo_check_b C04_dangling order = false.
+Proof.
+  intro order. destruct (topo_check_b C04_dangling order) eqn:E; [|reflexivity].
+  apply topo_check_sound in E. destruct E as (Hcl & _ & _). exfalso.
+  assert (H : defined C04_dangling 7).
+  { apply (Hcl 2 [1; 7] 7); [right; left; reflexivity | right; left; reflexivity]. }
+  cbv in H. intuition discriminate.
+Qed.
+
+(* duplicate keys are rejected *)
+Example C04_ex_duplicate_rejected : topo_check_b [(1, []); (1, [])] [1] = false.
+Proof. vm_compute. reflexivity. Qed.
+
+Close Scope positive_scope.
+
+(* the key grid of a 2 x 3 block structure, row-major *)
+Example C04_ex_grid : grid [2; 3] = [[0; 0]; [0; 1]; [0; 2]; [1; 0]; [1; 1]; [1; 2]].
+Proof. vm_compute. reflexivity. Qed.
+Example C04_ex_grid_0d : grid [] = [[]].
+Proof. vm_compute. reflexivity. Qed.
+Example C04_ex_keys_ok : keys_okN_b [2; 2]%N [[0; 0]; [0; 1]; [1; 0]; [1; 1]]%N = true.
+Proof. vm_compute. reflexivity. Qed.
+Example C04_ex_keys_wrong_order : keys_okN_b [2; 2]%N [[0; 0]; [1; 0]; [0; 1]; [1; 1]]%N = false.
+Proof. vm_compute. reflexivity. Qed.
+
+Print Assumptions C04_checker_sound.
+Print Assumptions C04_graph_check_sound.
+Print Assumptions C04_topological_closed_acyclic.
+Print Assumptions C04_checker_ranked.
+Print Assumptions C04_ranked_acyclic.
+Print Assumptions C04_checker_complete.
+Print Assumptions C04_acyclic_b_sound.
+Print Assumptions C04_closed_b_spec.
+Print Assumptions C04_no_dup_keys_b_spec.
+Print Assumptions C04_grid_length.
+Print Assumptions C04_grid_in_bounds.
+Print Assumptions C04_grid_NoDup.
+Print Assumptions C04_keys_ok_spec.
+Print Assumptions C04_keys_ok_exactly_once.
+Print Assumptions C04_keys_okN_spec.
+Print Assumptions C04_ex_cyclic_rejected.
+Print Assumptions C04_ex_dangling_rejected.
